@@ -118,7 +118,7 @@ theorem main_done {k : Nat} {w w' : Wk τ} {p : MainP} (hm : mainStep k w p = so
   | collect =>
     simp only [hph] at hm
     cases p with
-    | collect errs garbage =>
+    | collect errs garbage intr sf0 =>
       simp only at hm
       split at hm
       · simp only [Option.some.injEq] at hm
